@@ -18,6 +18,9 @@ import time
 from . import agg as aggmod
 
 VERIF = os.path.dirname(os.path.dirname(os.path.abspath(__file__)))
+# self-validation runs (VERIF_REPO pointing at a mutated copy) must not overwrite real evidence
+SCRATCH_RUN = os.path.realpath(os.environ.get("VERIF_REPO", "/repo")) != "/repo"
+OUT = os.path.join(VERIF, ".work", "selftest") if SCRATCH_RUN else VERIF
 PY = "/venv/bin/python"
 NPROC = int(os.environ.get("VERIF_NPROC", "16"))
 
@@ -166,7 +169,7 @@ def conclude(prop, mod, tier, seed, m, errs, wall):
     by_cls = {}
     for v in m["violations"]:
         by_cls.setdefault(v["cls"], v)
-    rdir = os.path.join(VERIF, "replays", prop)
+    rdir = os.path.join(OUT, "replays", prop)
     lines = []
     if by_cls:
         os.makedirs(rdir, exist_ok=True)
@@ -225,7 +228,7 @@ def conclude(prop, mod, tier, seed, m, errs, wall):
 
 
 def write_evidence(prop, mod, tier, seed, m, wall, nviol=0, inconclusive=None):
-    os.makedirs(os.path.join(VERIF, "evidence"), exist_ok=True)
+    os.makedirs(os.path.join(OUT, "evidence"), exist_ok=True)
     cov = {"evaluations": 0, "distinct_nontrivial": 0, "rule": getattr(mod, "RULE", ""), "samples": []}
     if m is not None:
         c = m["counters"]
@@ -259,7 +262,7 @@ def write_evidence(prop, mod, tier, seed, m, wall, nviol=0, inconclusive=None):
         "wall_s": round(wall, 2),
         "violations": nviol,
     }
-    with open(os.path.join(VERIF, "evidence", f"{prop}.json"), "w") as f:
+    with open(os.path.join(OUT, "evidence", f"{prop}.json"), "w") as f:
         json.dump(ev, f, indent=1, default=str)
 
 
